@@ -2,6 +2,7 @@
 # tools/sweep.sh <seed> <n>: runs every engine/profile on the unchanged tree, compares with the model, lists monitor failures.
 # Development aid (not a registered check). Needs .cache/vharness and the built driver.
 cd "$(dirname "$0")/.."
+export DBUS_SESSION_BUS_ADDRESS=${DBUS_SESSION_BUS_ADDRESS:-unix:path=/nonexistent}
 SEED=${1:-1}; N=${2:-100}
 D=.cache/sweep/$SEED
 rm -rf $D; mkdir -p $D
